@@ -1,7 +1,7 @@
 (* C06 — the order relation of every ordered method, stated on Node.iterator /
    Tree.iterator, and the link between the [meth] type and the source's names. *)
 From Coq Require Import List ZArith Bool Arith Lia Permutation.
-From NT Require Import Sx Rose ListFacts RoseFacts Traverse TraverseProofs TraverseLevelOrd TraverseVisit TraverseSkip TraverseStop.
+From NT Require Import Sx Rose ListFacts RoseFacts Traverse TraverseProofs TraverseLevelOrd TraverseVisit TraverseSkip TraverseStop TraverseDyn.
 Import ListNotations.
 
 (* revert / toggle arguments with which a level method runs _iter_level *)
@@ -140,4 +140,25 @@ Proof.
   - constructor.
   - vm_compute; reflexivity.
   - vm_compute; reflexivity.
+Qed.
+
+(* a stateful callback: skips at its first call, stops with 5 at its third *)
+Lemma nonvacuous_stateful :
+  let i := I 0 0 0 true [] (DInt 0) None [] in
+  let s := T 1 i [T 2 i [T 4 i []; T 5 i []]; T 3 i [T 6 i [T 7 i []]]] in
+  let cb : cbT := fun calls _ => match length calls with 0 => RetSkipInst | 2 => RaiseStopInst (Some 5%Z) | _ => RetNone end in
+  never_halts (mute cb) /\ mutes cb (mute cb) /\
+  visit (mute cb) s PRE false = ([2; 3; 6; 7], VReturn None) /\
+  skipped_dyn (mute cb) s [2; 3; 6; 7] 4 /\
+  visit cb s PRE false = ([2; 3; 6], VReturn (Some 5%Z)) /\
+  halted cb [] [2; 3; 6] (HStop (Some 5%Z)).
+Proof.
+  cbv zeta. refine (conj _ (conj _ (conj _ (conj _ (conj _ _))))).
+  - eapply mutes_never_halts, mutes_mute.
+  - apply mutes_mute.
+  - vm_compute; reflexivity.
+  - exists 2, 0. refine (conj _ (conj _ _)); [reflexivity|reflexivity|].
+    eapply anc_deep; [left; reflexivity|]. apply anc_here. vm_compute. tauto.
+  - vm_compute; reflexivity.
+  - apply h_cons; [right; reflexivity|]. apply h_cons; [left; reflexivity|]. apply h_here. reflexivity.
 Qed.
